@@ -18,7 +18,7 @@ VERIF = Path(__file__).resolve().parent.parent
 REPO = Path(os.environ.get("VERIF_REPO", "/repo")).resolve()
 CACHE = Path(os.environ.get("VERIF_CACHE", str(VERIF / ".cache")))
 EVIDENCE_DIR = Path(os.environ.get("VERIF_EVIDENCE_DIR", str(VERIF / "evidence")))   # seedrun redirects this
-REPLAY_DIR = VERIF / "replays"
+REPLAY_DIR = Path(os.environ["VERIF_REPLAY_DIR"]) if os.environ.get("VERIF_REPLAY_DIR") else VERIF / "replays"   # (runs against seeded worktrees write theirs elsewhere)
 SHM = Path("/dev/shm") if Path("/dev/shm").is_dir() else Path("/tmp")
 NCPU = int(os.environ.get("VERIF_JOBS", str(os.cpu_count() or 4)))
 
